@@ -4,4 +4,5 @@ set -u
 here="$(cd "$(dirname "$0")" && pwd)"
 . "$here/env.sh"
 for b in mccheck mcsched mcrace; do "$here/build.sh" $b || exit 1; done
+for b in mccheck.prune2 mcsched.buf4; do "$here/build.sh" $b || echo "note: variant $b not built"; done
 echo setup ok
